@@ -71,6 +71,22 @@ def classify(rel: tuple) -> str:
     return "other"
 
 
+def _continue_after_crash(src: Path, dst: Path, fmt: str, sub: str, first_id: int):
+    """A new process finds the directory as the crash left it and writes one more session. Returns (ids written,
+    read-back) or raises."""
+    from sedpack.io import Dataset
+    from sedpack.io.dataset_filler import DatasetFiller
+    if dst.exists():
+        shutil.rmtree(dst)
+    shutil.copytree(src, dst)
+    ds = Dataset(dst)
+    ids = [first_id, first_id + 1, first_id + 2]
+    with DatasetFiller(ds, relative_path_from_split=Path(sub) if sub else Path(".")) as f:
+        for i in ids:
+            f.write_example(values=dsreal.example(i), split="train")
+    return ids, _reader(dst)
+
+
 def judge_job(arg: dict) -> dict:
     """arg: {root, events (with bytes data), fmt, compression, hashes, torn, reader_every}. Worker process."""
     out = {"states": [], "problems": [], "n_effects": 0, "n_torn": 0, "error": None, "pids": {}, "paths_by_pid": {},
@@ -99,6 +115,24 @@ def judge_job(arg: dict) -> dict:
                     out["problems"].append(("reader-raised", f"crash point {tag}: opening / iterating the dataset "
                                             f"raised {type(exc).__name__}: {str(exc)[:300]}", tag))
             out["states"].append(st)
+            # recovery: every m-th crash state is handed to a "new process" that writes one more session into it
+            m = arg.get("recover_every", 0)
+            if m and (mat.scratch / "dataset_info.json").exists() and len(out["states"]) % m == 0:
+                sub = ("", "s", "s/t")[(len(out["states"]) // m) % 3]
+                try:
+                    ids, rb = _continue_after_crash(mat.scratch, tmp / "recover", arg["fmt"], sub,
+                                                    9000 + 10 * len(out["states"]))
+                    rst = {"files": [], "mem": {"none": True},
+                           "wlog": st["wlog"] + [{"id": i, "sess": 999, "pid": 0, "split": "train", "md": "None",
+                                                  "kind": "good", "acc": True} for i in ids],
+                           "done": list(done) + [999], "checks": ["R06"], "readback": rb,
+                           "point": tag + f" + recovery session in '{sub or '.'}'"}
+                    out["states"].append(rst)
+                    out["n_recovered"] = out.get("n_recovered", 0) + 1
+                except Exception as exc:  # pylint: disable=broad-except
+                    out["problems"].append(("recovery-session-failed", f"crash point {tag}: a new session after the "
+                                            f"crash (sub-directory '{sub or '.'}') raised {type(exc).__name__}: "
+                                            f"{str(exc)[:200]}", tag))
 
         idmap = {}
 
